@@ -201,10 +201,18 @@ def check_case(case, sess: Session):
         # the header+payload writer (full and delta files): every file it writes has its schema sidecar
         try:
             with tmpdir("c06a_") as d2:
-                pay0 = {"version_etag": "e0", "graph": {"k": 1}, "gel": {"edges": {}}}
-                pay1 = {"version_etag": "e1", "graph": {"k": 2}, "gel": {"edges": {"a→b": {"w": 0.5}}}, "agent": case["agent"]}
+                weird = ["ü→ñ", "ls\u2028id", "ps\u2029id", "nel\u0085id", "vt\x0bid", "plain"][len(case["edges"]) % 6]
+                pay0 = {"version_etag": "e0", "graph": {"k": 1}, "gel": {"edges": {}, "nodes": {weird: {"id": weird, "label": weird}}}}
+                pay1 = {"version_etag": "e1", "graph": {"k": 2}, "gel": {"edges": {"a→b": {"w": 0.5}, weird + "→z": {"w": 0.25}}, "nodes": {weird: {"id": weird, "label": None}}}, "agent": case["agent"]}
                 p0, d0 = S.write_snapshot_auto(d2, etag_from=None, etag_to="e0", payload=pay0, delta_mode=False)
                 p1, d1 = S.write_snapshot_auto(d2, etag_from="e0", etag_to="e1", payload=pay1, delta_mode=True)
+                for pth, want_ in ((p0, pay0), (p1, pay1)):
+                    try:
+                        back_ = S.read_snapshot(path=pth)
+                    except Exception as ex:
+                        back_ = "raised " + type(ex).__name__
+                    if back_ != want_:
+                        sess.violation("auto-writer:file-does-not-read-back", case, {"file": os.path.basename(pth), "id": weird, "got": str(back_)[:160]})
                 for pth, was_delta in ((p0, d0), (p1, d1)):
                     sess.count("auto_writer_files_checked" + (":delta" if was_delta else ":full"))
                     try:
